@@ -8,6 +8,7 @@ from fractions import Fraction
 
 import numpy as np
 
+import gen
 import hier
 import impl
 
@@ -161,6 +162,40 @@ def check(ctx, node, assigns, replay):
             ctx.violation("C11:matrix-changed" if not has_rename(node) else "C11:param-meaning-changed",
                           f"solve({ {k: round(v, 4) for k, v in p.items()} }) differs by {d:.3e} after flatten()", replay)
             return False
+    # the parametric side of flatten() in the model: composed rename table per leaf placement, and the solve after it
+    if hier.count_placements(node) <= 9 and not replay.get("inner_first"):
+        from collections import Counter
+        leaves = []
+
+        def walk(n):
+            if n.kind == "leaf":
+                leaves.append(n)
+                return
+            for ch, _ in n.children:
+                walk(ch)
+        walk(node)
+        obj2leaf = {id(cache[k]): k for k in cache}
+        for i, p in enumerate(assigns[:2] if hier.count_placements(node) <= 6 else assigns[:1]):
+            ans = ctx.driver.ask({"op": "pflatten", "tree": hier.ptree_json(node),
+                                  "kw": [[k, [gen.frac_str(Fraction(v)), "0/1"]] for k, v in p.items()]})
+            if "tables" not in ans or len(ans["tables"]) != len(leaves):
+                ctx.disagreement("C11.model.pflatten", f"model: {str(ans)[:80]}", replay)
+                break
+            if i == 0:
+                m_tabs = Counter((id(lf), frozenset((a, b) for a, b in tab if a != b)) for lf, tab in zip(leaves, ans["tables"]))
+                r_tabs = Counter((obj2leaf.get(id(st.model)), frozenset((a, b) for a, b in st.param_mapping.items() if a != b)) for st in top.structures)
+                if m_tabs != r_tabs:
+                    ctx.disagreement("C11.model.pflatten", "rename tables on the structures after flatten() differ from the composed tables of the model", replay)
+                    break
+            if "T" in ans and sorted(ans["pins"]) == sorted(names):
+                n = len(names)
+                order = [ans["pins"].index(nm) for nm in names]
+                Tm = gen.json_mat_np([z for row in ans["T"] for z in row], n, n) if n else np.zeros((0, 0), complex)
+                Tm = Tm[np.ix_(order, order)] if n else Tm
+                ctx.tag("model:pflatten")
+                if Tm.size and float(np.max(np.abs(Tm - before[i]))) > 1e-9:
+                    ctx.disagreement("C11.model.pflatten", f"model of flatten(); solve({sorted(p)}) differs from the code's solve before flatten()", replay)
+                    break
     if d_before != d_after:
         extra = sorted(set(d_after) - set(d_before))
         missing = sorted(set(d_before) - set(d_after))
